@@ -32,6 +32,12 @@ class RunRepo:
         if kind == "exec": os.symlink(vlib.BIN_VHELPER, p)
         elif kind == "noexec":
             open(p, "w").write("#!/bin/sh\nexit 0\n"); os.chmod(p, 0o644)
+        elif kind == "noexec_link":
+            # a symbolic link (whose own mode is always rwxrwxrwx) to a file without the x bit
+            shared = os.path.join(self.repo, "shared"); os.makedirs(shared, exist_ok=True)
+            tgt = os.path.join(shared, "%s_%s.sh" % (command, target.replace("/", "_")))
+            open(tgt, "w").write("#!/bin/sh\nexit 0\n"); os.chmod(tgt, 0o644)
+            os.symlink(tgt, p)
         return p
     def write_script(self):
         json.dump(self.script, open(os.path.join(self.hd, "script.json"), "w"))
